@@ -170,6 +170,7 @@ def run(ctx):
         ctx.check(byte in consts, "C10.constants", f"C10.constants:sigil:{mod}", w.where(fv), bad_msg=f"sigil byte passed by {mod}::validate is {consts}, expected {byte} ({chr(byte)!r})")
     server_name_rules(ctx, w)
     length_rules(ctx, w)
+    localpart_rules(ctx, w)
     split_agreement(ctx, w, "C10.split-agreement")
     # room version ids: each known variant <-> exactly its canonical literal (stored byte-for-byte otherwise)
     T.version_rules(ctx, w, [], rule="C10.room-version")
@@ -242,6 +243,7 @@ def invariant_rules(ctx, w):
     validate_rules(ctx, w)
     server_name_rules(ctx, w)
     length_rules(ctx, w)
+    localpart_rules(ctx, w)
     split_agreement(ctx, w, "C10.split-agreement")
 
 
@@ -363,6 +365,90 @@ def server_name_rules(ctx, w):
 
 
 SIGILS = {"user_id": 64, "room_id": 33, "room_alias_id": 35, "event_id": 36}
+
+
+def _rejects_nul_and_colon(w, fn_path, need_colon=True):
+    """Does the Ok path of the localpart check at fn_path require the absence of NUL (and ':')?  Returns (bool, explanation)."""
+    f = w.lookup(fn_path)
+    if f is None or "body" not in f:
+        return False, f"{fn_path} not found"
+    dx = D.Dex(w.lookup, adt_discr=w.adt_discr, effects=lambda n: True)
+    oks = [p for p in dx.paths(f, [D.sym("l")]) if p.kind == "ret" and not U.is_err(p.ret)]
+    if not oks:
+        return False, "no accepting path"
+    need = {0} | ({ord(":")} if need_colon else set())
+    for p in oks:
+        excluded = set()
+        for a, t in p.conds:
+            sa = D.show_atom(a)
+            m = re.match(r"^(?:str|slice)::contains\((?:str::as_bytes\()?l\)?, (.*)\)$", sa)
+            if m and t is False:
+                lits = re.findall(r"'((?:\\x[0-9a-f]{2})|[^'])'", m.group(1))
+                for lit in lits:
+                    excluded.add(int(lit[2:], 16) if lit.startswith("\\x") else ord(lit))
+                if re.fullmatch(r"\d+", m.group(1).strip()):
+                    excluded.add(int(m.group(1)))
+                continue
+            m = re.match(r"^Iterator::(any|all)\((str::bytes|str::chars)\(l\), (?:closure|fn)\[([^\]]+)\](\{.*\})?\)$", sa)
+            if m:
+                clo = w.lookup(m.group(3))
+                tt = byte_truth_table(w, clo) if clo is not None and "body" in clo else "closure not found"
+                if isinstance(tt, str):
+                    return False, tt
+                quant = m.group(1)
+                # any(pred) false -> every byte has pred false: excluded = {b: pred(b)};  all(pred) true -> excluded = {b: not pred(b)}
+                if quant == "any" and t is False:
+                    excluded |= {b for b in range(256) if tt[b]}
+                elif quant == "all" and t is True:
+                    excluded |= {b for b in range(256) if not tt[b]}
+        if not need <= excluded:
+            return False, f"an accepting path excludes only the bytes {sorted(excluded)[:8]} (needs {sorted(need)})"
+    return True, "every accepting path excludes NUL" + (" and ':'" if need_colon else "")
+
+
+def localpart_rules(ctx, w):
+    """C10.localpart: no NUL (or colon) in the localpart of user IDs, room aliases and room IDs."""
+    IV = "ruma_identifiers_validation::"
+    ctx.rule("C10.localpart", "user ID and room alias validators: every accepting path has a successful localpart check of exactly the text between the sigil "
+                              "and the first ':' and that check refuses NUL and ':'; room IDs (opaque): every accepting path has a NUL test of the whole string")
+    CHECKS = {IV + "localpart_is_backwards_compatible": "backwards-compatible", IV + "user_id::localpart_is_fully_conforming": "fully-conforming"}
+    dex = D.Dex(w.lookup, adt_discr=w.adt_discr, effects=lambda n: True,
+                inline=lambda n: n.startswith(IV) and "{closure" not in n and n not in (IV + "validate_id", IV + "server_name::validate") and n not in CHECKS)
+    verdicts = {c: _rejects_nul_and_colon(w, c) for c in CHECKS}
+    n = 0
+    for mod in ["user_id", "room_alias_id", "room_id", "room_id_or_alias_id"]:
+        f = w.fn(f"{IV}{mod}::validate")
+        forms = {}
+        for p in dex.paths(f, [D.sym("s")]):
+            if p.kind != "ret" or U.is_err(p.ret):
+                continue
+            n += 1
+            conds = [(D.show_atom(a), t) for a, t in p.conds]
+            sigil = next((re.search(r"validate_id\(s, (\d+)\)", a).group(1) for a, t in conds if re.search(r"validate_id\(s, (\d+)\) is Ok", a) and t), "?")
+            why = None
+            # whole-string NUL test
+            if any(re.match(r"^(?:str|slice)::contains\((?:str::as_bytes\()?s\)?, (0|'\\x00')\)$", a) and t is False for a, t in conds):
+                why = "NUL test on the whole identifier"
+            for c, label in CHECKS.items():
+                for a, t in conds:
+                    m = re.match(rf"^{re.escape(c)}\((.*)\) is Ok$", a)
+                    if m and t:
+                        arg = m.group(1)
+                        localpart = re.fullmatch(r"traits::index\(s, Range::Range\(start=1, end=str::find\(s, ':'\)\.Some\.0\)\)", arg) is not None or arg == "s"
+                        if not localpart:
+                            why = why or f"!the {label} check is applied to `{arg[:60]}`, not to the text between the sigil and the first ':'"
+                        elif not verdicts[c][0]:
+                            why = why or f"!{c.rsplit('::', 1)[-1]}: {verdicts[c][1]}"
+                        else:
+                            why = f"{label} localpart check ({verdicts[c][1]})"
+            key = f"C10.localpart:{mod}:sigil={sigil}"
+            good = why is not None and not why.startswith("!")
+            forms[key] = (forms.get(key, (True, ""))[0] and good, why)
+        for key, (good, why) in sorted(forms.items()):
+            ctx.check(good, "C10.localpart", key, w.where(f), ok_msg=why or "",
+                      bad_msg=(why or "!an accepting path has neither a localpart check nor a NUL test")[1:] + ": an identifier with a NUL byte (or a second "
+                              "colon-delimited part) in its localpart is accepted, e.g. `#ru\\0ma:example.com`")
+    ctx.floor("accepting paths examined for the localpart rule", n, 5)
 
 
 def length_rules(ctx, w):
